@@ -1056,6 +1056,8 @@ const float *vorbis_window(vorbis_dsp_state *v,int W){
   int hs=ci->halfrate_flag;
   private_state *b=v->backend_state;
 
-  if(b->window[W]-1<0)return NULL;
+  /* the table starts at the 64 sample window; only half rate can ask
+     for one below it */
+  if(b->window[W]-hs<0)return NULL;
   return _vorbis_window_get(b->window[W]-hs);
 }
